@@ -29,9 +29,10 @@ def main():
              ("tag", 1), ("back.other.tag2", 1), ("m.ref.b", 0)]
     chain_cases = [{"atoms": [a], "op": "and"} for a in atoms]
     chain_cases += [{"atoms": [a, b], "op": op} for a in atoms for b in atoms if a != b for op in ("and", "or")]
-    satoms = ["in1", "in1t", "in2", "inC", "inE", "eqC", "neC1", "c1", "a0", "b1"]
+    chain_cases += [{"unmapped_tag": t, "atoms": [["unmapped-class variable", t]], "op": "and"} for t in (0, 1)]
+    satoms = ["in1", "in1t", "in2", "inC", "inE", "eqC", "neC1", "c1", "subT", "conT", "subU", "a0", "b1"]
     chain_cases += [{"satoms": [a], "op": "and"} for a in satoms]
-    chain_cases += [{"satoms": [a, b], "op": op} for a in satoms[:8] for b in satoms if a != b for op in ("and", "or")]
+    chain_cases += [{"satoms": [a, b], "op": op} for a in satoms[:11] for b in satoms if a != b for op in ("and", "or")]
     # joins between two variables of different classes (SqlJoin.tla: the expected bag per pattern comes from TLC)
     ctx.run_tlc("SqlJoin", "SqlJoin_mc.cfg", expect="ok")
     ctx.run_tlc("SqlJoin", "SqlJoin_sw_CollapsePartners.cfg", expect="violation")
@@ -74,6 +75,10 @@ def main():
         ctx.case(key, len(atoms_) > 1 and "rejected" not in o, sample={"family": key[0], "atoms": atoms_, "op": c["op"], "memory": o.get("memory"),
                                                                       "sql": o.get("sql")})
         if "rejected" in o or "memory_error" in o:
+            continue
+        if "unmapped_tag" in c:
+            if "sql_error" in o or o.get("sql"):
+                ctx.violation({"chains": c, "observed": o}, note="a variable over an unmapped class was translated and selected rows of a mapped ancestor")
             continue
         if "sql_error" in o or o.get("sql") != o.get("memory"):
             ctx.violation({"chains": c, "observed": o}, note="an accepted translation of a query with relationship chains selects other rows than in-memory evaluation")
